@@ -47,6 +47,9 @@ var Pool = []Recipe{
 	r("false", false, false, tx("false")),
 	r("/a", true, false, tl("a")),
 	r("/StandardEncoding", false, false, tl("StandardEncoding")),
+	// a name is a sequence of bytes: five of them here, whatever an encoding
+	// would make of the last two
+	r("/caf<c3a9>", true, false, tl("caf\xc3\xa9")),
 	r("()", true, true, psref.TS(nil)),
 	r("(abc)", true, false, psref.TS([]byte("abc"))),
 	r("<00ff80>", false, false, psref.TS([]byte{0, 255, 128})),
